@@ -98,6 +98,10 @@ fn corpus() -> Vec<Scenario> {
         s("enum", 40, 32, &[], "help net<CR>"),
         s("enum", 40, 32, &[], "help net up<CR>"),
         s("enum", 40, 32, &[], "net up -h<CR>"),
+        s("enum", 40, 32, &[], "help net iface up<CR>"),
+        s("enum", 40, 32, &[], "net iface mtu --help<CR>"),
+        s("enum", 40, 32, &[OUT1], "net iface mtu 1500<CR>"),
+        s("enum", 40, 32, &[], "net iface mtu x<CR>"),
         s("enum", 40, 32, &[], "help nosuch<CR>"),
         s("enum", 40, 32, &[], "help net nosuch<CR>"),
         s("enum", 40, 32, &[], "g<TAB>l<TAB> 1<CR>"),
@@ -119,6 +123,7 @@ fn corpus() -> Vec<Scenario> {
         s("group", 40, 32, &[], "help secret-cmd<CR>"),
         s("group", 40, 32, &[], "help nosuch<CR>"),
         s("group", 40, 32, &[], "help net up<CR>"),
+        s("group", 40, 32, &[], "net iface up -h<CR>"),
         s("group", 40, 32, &[], "he<TAB><CR>"),
         s("group", 40, 32, &[OUT3], "g<TAB><W:note\n>o<TAB><CR>"),
     ]
